@@ -126,7 +126,8 @@ def run_shard(spec):
             if rnd.random() < 0.3:
                 # characters (and base + combining mark sequences) that Unicode normalisation, case mapping or compatibility folding
                 # would turn into a table character: they are not in the table themselves
-                bad = rnd.choice(_foldable(ref_chars))
+                pools = [pl for pl in _foldable(ref_chars) if pl]
+                bad = rnd.choice(rnd.choice(pools))
             chars[rnd.randrange(len(chars))] = bad
         case = {"kind": "asm", "mode": mode, "chars": "".join(chars), "before": rnd.choice([None, None, "utf-8", "cp866", "koi8-r", "latin-1", "utf-16"])}
         vs = run_case(case, cnt)
@@ -145,7 +146,7 @@ _FOLD = []
 def _foldable(ref_chars):
     if not _FOLD:
         import unicodedata
-        pool = set()
+        pools = {"nfd": set(), "NFC": set(), "NFKC": set(), "case": set()}
         for cp in range(0x80, 0x10000):
             if 0xD800 <= cp < 0xE000:
                 continue
@@ -153,15 +154,16 @@ def _foldable(ref_chars):
             if c in ref_chars:
                 d = unicodedata.normalize("NFD", c)
                 if d != c and not all(x in ref_chars for x in d):
-                    pool.add(d)                                   # decomposed spelling of a table character
+                    pools["nfd"].add(d)                           # decomposed spelling of a table character
                 continue
             for form in ("NFC", "NFKC"):
                 n = unicodedata.normalize(form, c)
                 if n != c and n and all(x in ref_chars for x in n):
-                    pool.add(c)
+                    pools[form].add(c)
             if len(c.upper()) == 1 and c.upper() in ref_chars and ord(c.upper()) < 0x80 or len(c.lower()) == 1 and c.lower() in ref_chars and ord(c.lower()) < 0x80:
-                pool.add(c)
-        _FOLD.extend(sorted(pool))
+                pools["case"].add(c)
+        pools["NFKC"] -= pools["NFC"]
+        _FOLD.extend(sorted(v) for v in pools.values())
     return _FOLD
 
 
